@@ -183,8 +183,13 @@ fn stmt_sep(out: &mut String, lay: &Layout, ch: &mut Choices, is_string_literal_
         out.push('\n');
         return;
     }
-    if lay.pack_lines && c % 7 == 1 && !is_string_literal_line {
+    // one packed layout in four packs nearly everything: lines of several hundred bytes
+    let long = lay.pack_lines && lay.choices.len() >= 3 && lay.choices[0] % 2 == 0;
+    if lay.pack_lines && (c % 7 == 1 || (long && c % 16 != 0)) && !is_string_literal_line {
         out.push(' ');
+        if long {
+            out.push_str(&" ".repeat(c as usize % 13));
+        }
         return;
     }
     out.push('\n');
@@ -196,7 +201,13 @@ fn stmt_sep(out: &mut String, lay: &Layout, ch: &mut Choices, is_string_literal_
             out.push('\n');
         }
         6 => out.push('\t'),
+        // a statement indented beyond any width a message could be clipped to
         _ => {}
+    }
+    // in the long-line layouts every other statement that does begin a line is indented beyond any width a message
+    // could be clipped to
+    if long && (c / 16) % 2 == 0 {
+        out.push_str(&" ".repeat(110 + c as usize % 40));
     }
 }
 
@@ -207,6 +218,14 @@ pub fn render_program(p: &Program, lay: &Layout) -> Rendered {
     let mut flat_offsets: Vec<usize> = Vec::new();
     if lay.comments && ch.next() % 3 == 0 {
         out.push_str("; generated program\n");
+    }
+    // one layout in five begins with blank lines (an empty one and one of blanks); with packed lines also blanks before
+    // the first statement
+    if lay.choices.len() >= 3 && lay.choices[1] % 5 == 0 {
+        out.push_str("\n  \t\n");
+        if lay.pack_lines {
+            out.push_str("  ");
+        }
     }
     for d in &p.data {
         out.push_str(&render_data(d, &mut ch));
